@@ -339,6 +339,8 @@ type loopScenario struct {
 	// RootSender: one more sender that is no actor: the harness uses the ActorSystem handle itself (Tell and Ask of the
 	// root context) from one goroutine; Asks are not awaited one by one (a burst of requests in flight)
 	RootSender bool `json:"root_sender,omitempty"`
+	// AfterFailedEncode: before the traffic starts each system tries to send the other one messages whose encoding fails
+	AfterFailedEncode bool `json:"after_failed_encode,omitempty"`
 	// SizeSeq: payload sizes are taken from Sizes in order (k-th message: Sizes[k mod len]) instead of at random
 	SizeSeq bool `json:"size_seq,omitempty"`
 }
@@ -506,6 +508,13 @@ func runLoopback(sc *loopScenario, seed int64) ([]map[string]any, error) {
 		}
 		wg.Wait()
 	}
+	if sc.AfterFailedEncode {
+		ensureBadmsg()
+		for i := 0; i < 8; i++ {
+			a.Tell(toB, &badmsg{})
+			b.Tell(toA, &badmsg{})
+		}
+	}
 	round(0)
 	if sc.RecreateReceiver {
 		// everything of the first round has arrived before the receiver goes away
@@ -660,6 +669,26 @@ func checkC11(c *core.Ctx) {
 			return
 		}
 	}
+	// many small frames that TCP hands over in one piece (33, 40, 100, 300 frames written before the reader gets its turn,
+	// read in segments as large as the reader asks for): every frame is delivered, however long the run of frames that
+	// are already buffered
+	for bi, n := range []int{33, 40, 100, 300} {
+		b := &framingBehaviour{}
+		for k := 0; k < n; k++ {
+			b.Sizes = append(b.Sizes, l0+k%3)
+			b.Steps = append(b.Steps, framingStep{Op: "w", At: k + 1})
+		}
+		for k := 0; k < n/8+2; k++ {
+			b.Steps = append(b.Steps, framingStep{Op: "r", At: 1 << 29})
+		}
+		ev, err := runFramingReplay(b, c.Seed+int64(bi))
+		if err != nil {
+			c.Broken("framing replay coalesced#%d: %v", bi, err)
+			return
+		}
+		c.Add("evaluations", 1)
+		traces = append(traces, &Trace{Events: ev, Class: "framing-coalesced-burst", Name: fmt.Sprintf("coalesced#%d", n), Scenario: map[string]any{"frames": n, "what": "all frames written before the first read"}})
+	}
 	// end to end over loopback TCP
 	rng := rand.New(rand.NewSource(c.Seed))
 	sizes := [][]int{{0, 1, 10}, {0, 1, 100, 4070, 4090, 4096, 4100}, {100, 70000}, {1 << 20}}
@@ -684,6 +713,9 @@ func checkC11(c *core.Ctx) {
 		}
 		if i%3 == 2 {
 			sc.RootSender = true
+		}
+		if i%4 == 2 {
+			sc.AfterFailedEncode = true
 		}
 		if i == 3 {
 			// growing large payloads from one sender, the last one just under the frame limit
